@@ -265,7 +265,7 @@ def run_family(pid, tier, family, cfgname, v, rng, nontrivial=None, timeout=1500
 def finish(pid, tier, t0, v, stats, level, rule, invariants, assumptions):
     cmp_total = sum(s["compared"] for s in stats)
     cases = sum(s["histories"] for s in stats)
-    if cmp_total == 0 or cmp_total < 0.5 * cases:
+    if not v.violations and (cmp_total == 0 or cmp_total < 0.5 * cases):
         raise core.InfraError("degenerate exploration: only %d of %d histories could be observed (%s)" %
                               (cmp_total, cases, [s["unobservable"] for s in stats]))
     rc = v.finish(tier, t0)
@@ -294,12 +294,16 @@ def run_c02(tier):
     t0 = time.time()
     rng = random.Random(core.seed())
     v = core.Verdict(pid)
-    stats = [run_family(pid, tier, "build", "MC_Container_build.cfg", v, rng)]
+    stats = [run_family(pid, tier, "build", "MC_Container_build.cfg", v, rng),
+             run_family(pid, tier, "forms", "MC_Container_forms.cfg", v, rng),
+             run_family(pid, tier, "lits", "MC_Container_lits.cfg", v, rng)]
     return finish(pid, tier, t0, v, stats, "model_checking",
                   "TLC enumerates every choice vector that differs from the base service in at most two of the dimensions "
                   "creation method x first argument form x second argument form x fields x calls/withers x scope x decorators x getter "
                   "(pairwise coverage), applies the fixed script Get, GetInContext(1), Get, GetInContext(1), GetInContext(2), GetTaggedBy; "
-                  "each history is replayed on the compiled container; all are non-trivial (every one builds an object graph)",
+                  "each history is replayed on the compiled container; plus family forms (every documented syntax form of constructor / value / "
+                  "type, built-in functions as arguments, with and without a parameters section) and family lits (every literal type incl. "
+                  "non-finite floats in every argument position); all are non-trivial (every one builds an object graph)",
                   ["SharedOnce", "ContextIsolation", "SharedNeverHoldsContextual"], COMMON_ASSUMPTIONS)
 
 
